@@ -24,6 +24,10 @@ import (
 
 var progSeq int
 
+// executed / emitted instructions per opcode over the whole run (evidence extras)
+var opExec = map[string]int{}
+var opStatic = map[string]int{}
+
 func compile(src string) (*code.Object, string, error) {
 	progSeq++
 	name := fmt.Sprintf("c04_%d.mtail", progSeq)
@@ -505,6 +509,9 @@ func runStep(obj *code.Object, name string, lines []Line, t *tabs) (out []lineOb
 			if opn == "" {
 				opn = fmt.Sprintf("op%d", int(ins.Opcode))
 			}
+			if int(ins.Opcode) >= 0 && int(ins.Opcode) < len(opNames) {
+				opExec[opNames[ins.Opcode]]++
+			}
 			// silent representation faults
 			silent := ""
 			switch ins.Opcode {
@@ -637,6 +644,7 @@ func objectCoq(obj *code.Object) (string, error) {
 		op := fmt.Sprintf("(OpUnknown %s)", vlib.Z(int64(i.Opcode)))
 		if int(i.Opcode) >= 0 && int(i.Opcode) < len(opNames) {
 			op = opNames[i.Opcode]
+			opStatic[op]++
 		}
 		var arg string
 		switch a := i.Operand.(type) {
